@@ -8,8 +8,7 @@ The conflict test of `Router::insert` is `find` on the parts of every expansion.
 map keyed by well-formed part lists — `find` after `insert` sees exactly the new key in addition to the old ones
 (through every radix split), a key is found iff a route with that (normalised) part sequence is stored, and
 `optimize` changes no lookup.
-Status: proved on live templates for histories whose inserted templates have pairwise different expansions; the
-duplicate-expansion family is tied by the `dup` and `pairs` suites. -/
+Status: proved on live templates for every history. -/
 
 theorem C08_find_after_insert (n : Node) (P Q : List Part) (i : Info) (hS : Node.SOK n)
     (hP : altOK P = true) (hQ : altOK Q = true) (hnew : Node.find n P = none) :
@@ -43,6 +42,6 @@ theorem C08_conflict_list_strictly_sorted (r : Router) (t t' : Bytes) (d : Nat) 
 
 /-- otherwise the insert succeeds and every expansion becomes routable -/
 theorem C08_success_makes_expansions_routable (env : Env) (r r' : Router) (L : List LiveT) (h : Live r L) (t : Bytes) (d : Nat)
-    (hi : r.insert t d = .ok r') (ts : List (Bytes × List Part)) (hp : parseTemplates t = .ok ts) (hd : DistinctExps ts)
+    (hi : r.insert t d = .ok r') (ts : List (Bytes × List Part)) (hp : parseTemplates t = .ok ts)
     (path : Bytes) (hfit : ∃ e ∈ ts, ∃ vs, Fits env e.2 path vs) : (r'.search env path).isSome = true :=
-  insert_routes env h hi ts hp hd path hfit
+  insert_routes env h hi ts hp path hfit
